@@ -617,7 +617,8 @@ func checkKeys(c keyCase) evid.Outcome {
 func refSlice(k ref.Key) []byte { return k[:] }
 
 func genKeys(t *rapid.T) keyCase {
-	c := keyCase{Key: gen.Bytes(t, "key", 16)}
+	k := gen.Key(t, "key") // 1/8: the all-zero, the all-ones or a single-bit key - legal keys like any other
+	c := keyCase{Key: k[:]}
 	c.Addr = binary.BigEndian.Uint32(gen.Bytes(t, "mcaddr", 4))
 	if rapid.IntRange(0, 15).Draw(t, "edge") == 0 {
 		c.Addr = rapid.SampledFrom([]uint32{0, 0xffffffff, 1, 0x01000000, 0x01020304, 0x80000000}).Draw(t, "edgeaddr")
